@@ -81,13 +81,16 @@ class Engine:
         self.undo = []
         self.intrinsics = {}
         self.stats = Stats()
-        self.timeout_ms = self.opt.get('timeout_ms', 60000)
+        self.timeout_ms = self.opt.get('timeout_ms', 30000)
+        self.branch_timeout_ms = self.opt.get('branch_timeout_ms', 1500)
         self.max_instrs = self.opt.get('max_instrs', 3000000)
         self.conc_cap = self.opt.get('conc_cap', 300)
         self.violations = []
         self.inconclusive = []
         self.uf = {}
         self.trace = self.opt.get('trace', False)
+        self.aided = self.opt.get('aided_simplify', False)
+        self.fits = {}
         self.ptrto = {}
         for t in self.types.values():
             if t.k == 'ptr':
@@ -286,9 +289,80 @@ class Engine:
     def check(self, *assumptions):
         t0 = time.time()
         self.stats.queries += 1
+        self.ext_model = None
         r = self.solver.check(*assumptions)
+        if r == z3.unknown and self.opt.get('bv_as_int_fallback'):
+            r = self.check_cvc5(assumptions)
         self.stats.solver_s += time.time() - t0
         return r
+
+    def model(self):
+        if self.ext_model is not None:
+            return self.ext_model
+        return self.solver.model()
+
+    def check_cvc5(self, assumptions):
+        """second back end for multiply/divide-by-constant kernels: cvc5 with the integer encoding of bit-vectors"""
+        import subprocess
+        import tempfile
+        s2 = z3.Solver()
+        s2.add(self.solver.assertions())
+        for a in assumptions:
+            s2.add(a)
+        text = s2.to_smt2()
+        names = []
+        for v in self.nondets:
+            if is_sym(v):
+                names.append(v.decl().name())
+        for op in ('bvsrem', 'bvsdiv', 'bvudiv', 'bvurem', 'bvsmod'):
+            text = text.replace(op + '_i', op).replace(op + '0', op)
+        text = '(set-option :produce-models true)\n(set-logic ALL)\n' + text
+        names = [n for n in names if ('(declare-fun %s ' % n) in text]
+        self.stats.cvc5_queries = getattr(self.stats, 'cvc5_queries', 0) + 1
+        tl = int(self.opt.get('cvc5_timeout_ms', 60000))
+
+        def run(txt):
+            import os
+            with tempfile.NamedTemporaryFile('w', suffix='.smt2', delete=False) as f:
+                f.write(txt)
+                fn = f.name
+            try:
+                p = subprocess.run(['cvc5', '--solve-bv-as-int=sum', '--tlimit=%d' % tl, fn], capture_output=True,
+                                   text=True, timeout=tl / 1000 + 10)
+                return p.stdout, p.stderr
+            except subprocess.TimeoutExpired:
+                return '', 'timeout'
+            finally:
+                os.unlink(fn)
+        out, err = run(text)
+        if self.opt.get('cvc5_debug'):
+            print('CVC5>>', out[:300], err[:300])
+            open('/tmp/cvc5_last.smt2', 'w').write(text)
+        if '(error' in out or '(error' in err:
+            return z3.unknown
+        first = out.strip().split('\n', 1)[0].strip() if out.strip() else ''
+        if first == 'unsat':
+            return z3.unsat
+        if first == 'sat':
+            vals = {}
+            if names:
+                out, err = run(text + '\n(get-value (%s))\n' % ' '.join(names))
+                if '(error' in out or '(error' in err or not out.startswith('sat'):
+                    return z3.unknown
+                import re
+                for m in re.finditer(r'\((\S+) (#b[01]+|#x[0-9a-fA-F]+|true|false|\(_ bv(\d+) \d+\))\)', out):
+                    nm, val = m.group(1), m.group(2)
+                    if val.startswith('#b'):
+                        vals[nm] = int(val[2:], 2)
+                    elif val.startswith('#x'):
+                        vals[nm] = int(val[2:], 16)
+                    elif val in ('true', 'false'):
+                        vals[nm] = 1 if val == 'true' else 0
+                    else:
+                        vals[nm] = int(m.group(3))
+            self.ext_model = ExtModel(vals, self.nondets)
+            return z3.sat
+        return z3.unknown
 
     def add(self, c):
         self.solver.add(c)
@@ -323,12 +397,15 @@ class Engine:
                 return False
             return d == 1
         self.pos += 1
+        # feasibility pruning only: a short time limit; unknown = keep the branch (sound over-approximation,
+        # a violation found on such a path still has to reproduce natively)
+        self.solver.set('timeout', self.branch_timeout_ms)
         rt = self.check(cond)
         ncond = z3.Not(cond)
         rf = self.check(ncond)
+        self.solver.set('timeout', self.timeout_ms)
         if rt == z3.unknown or rf == z3.unknown:
-            self.stats.unknown += 1
-            self.inconclusive.append('branch feasibility unknown')
+            self.stats.unknown_branches = getattr(self.stats, 'unknown_branches', 0) + 1
         t = rt != z3.unsat
         f = rf != z3.unsat
         if t and f:
@@ -388,7 +465,7 @@ class Engine:
                     raise Unsupported('unknown while concretising ' + what)
                 if r == z3.unsat:
                     break
-                v = self.solver.model().eval(x, model_completion=True).as_long()
+                v = self.model().eval(x, model_completion=True).as_long()
                 vals.append(v)
                 if len(vals) > cap:
                     raise Unsupported('concretisation cap exceeded for %s' % what)
@@ -431,7 +508,7 @@ class Engine:
             if r == z3.unknown:
                 self.inconclusive.append('unknown at violation %s' % tag)
             return False
-        vec = self.model_vector(self.solver.model())
+        vec = self.model_vector(self.model())
         self.violations.append(Violation(tag, kind, vec, list(self.trail), detail))
         return True
 
@@ -493,6 +570,7 @@ class Engine:
         self.callstack = []
         self.clock_last = None
         self.path_notes = []
+        self.fits = {}
         self.epoch += 1
         outcome = 'ok'
         self.path_obs = []
@@ -539,7 +617,7 @@ class Engine:
             return
         if self.check() != z3.sat:
             return
-        m = self.solver.model()
+        m = self.model()
         vec = self.model_vector(m)
         out = []
         for tag, kind, v in self.path_obs:
@@ -1060,7 +1138,10 @@ class Engine:
         if op == '&':
             if cb and b == (1 << bits) - 1:
                 return a
-            return a & b
+            r = a & b
+            if self.aided and cb and self.valid(r == a):
+                return a
+            return r
         if op == '|':
             return a | b
         if op == '^':
@@ -1079,10 +1160,27 @@ class Engine:
         if dbits == sbits:
             return v
         if dbits < sbits:
-            return z3.simplify(z3.Extract(dbits - 1, 0, v))
+            r = z3.simplify(z3.Extract(dbits - 1, 0, v))
+            if self.aided and is_sym(r) and not z3.is_bv_value(r):
+                # solver-aided simplification: does the value provably fit the narrower type on this path?
+                back = z3.SignExt(sbits - dbits, r) if dsigned else z3.ZeroExt(sbits - dbits, r)
+                if self.valid(back == v):
+                    self.fits[r.get_id()] = (v, dsigned, r)
+            return r
+        if self.aided:
+            f = self.fits.get(v.get_id())
+            if f is not None and f[1] == ssigned and f[0].size() == dbits:
+                return f[0]
         if ssigned:
             return z3.SignExt(dbits - sbits, v)
         return z3.ZeroExt(dbits - sbits, v)
+
+    def valid(self, c):
+        """c holds on every model of the current path condition (one solver query; unknown counts as no)"""
+        c = self.simp_bool(c)
+        if type(c) is bool:
+            return c
+        return self.check(z3.Not(c)) == z3.unsat
 
     # value equality (Go ==) -> bool | BoolRef
     def val_eq(self, a, b):
@@ -1383,6 +1481,24 @@ class Engine:
 
 
 _MISSING = object()
+
+
+class ExtModel:
+    """model returned by the external solver: values of the nondet constants"""
+
+    def __init__(self, vals, nondets):
+        self.subs = []
+        for v in nondets:
+            if not is_sym(v):
+                continue
+            x = vals.get(v.decl().name(), 0)
+            if z3.is_bool(v):
+                self.subs.append((v, z3.BoolVal(bool(x))))
+            else:
+                self.subs.append((v, BV(x, v.size())))
+
+    def eval(self, e, model_completion=True):
+        return z3.simplify(z3.substitute(e, *self.subs))
 
 
 def has_uf(e):
@@ -1895,6 +2011,19 @@ POISON = Poison()
 def run_inits(self, pkgs=None):
     """Execute package initialisers concretely (tolerant: an unsupported call yields Poison)."""
     self.init_mode = True
+    strict = self.handlers
+
+    def tolerant(h):
+        def w(E, ins, x, y):
+            try:
+                return h(E, ins, x, y)
+            except (GoPanic, PathAbort):
+                raise
+            except Exception as e:
+                E.init_notes.append('%s: %s' % (ins.op, e))
+                return POISON
+        return w
+    self.handlers = {k: tolerant(h) for k, h in strict.items()}
     self.solver = z3.Solver()
     self.prefix = []
     self.pos = 0
@@ -1909,6 +2038,7 @@ def run_inits(self, pkgs=None):
         except (Unsupported, GoPanic, PathAbort) as e:
             self.init_notes.append('init %s: %s' % (p, e))
     self.init_mode = False
+    self.handlers = strict
     self.undo = []
     self.stats.instrs += self.path_instrs
     self.path_instrs = 0
